@@ -50,7 +50,10 @@ def p_dtml(nodes, opt):
                 if cn is not None:
                     out.append('<dtml-%s%s%s>' % (cn, sp if ca else '', ca))
                 out.append(p_dtml(body, opt))
-            out.append('</dtml-%s%s>' % (name, (' ' + args.split()[0]) if opt.get('endargs') and args and '"' not in args.split()[0] and '=' not in args.split()[0] else ''))
+            if opt.get('endfull') and args:
+                out.append('</dtml-%s %s>' % (name, args))          # the end tag repeats the whole argument string (ignored by the compiler)
+            else:
+                out.append('</dtml-%s%s>' % (name, (' ' + args.split()[0]) if opt.get('endargs') and args and '"' not in args.split()[0] and '=' not in args.split()[0] else ''))
     return ''.join(out)
 
 
@@ -73,7 +76,7 @@ def p_ssi(nodes, opt):
                 if cn is not None:
                     out.append('<!--#%s%s%s-->' % (cn, sp if ca else '', ca))
                 out.append(p_ssi(body, opt))
-            out.append('<!--#%s%s-->' % (end, name))
+            out.append('<!--#%s%s%s-->' % (end, name, (' ' + args) if opt.get('endfull') and args else ''))
     return ''.join(out)
 
 
@@ -102,7 +105,7 @@ def p_epfs(nodes, opt):
                 if cn is not None:
                     out.append('%%(%s%s%s)[' % (cn, sp if ca else '', ca))
                 out.append(p_epfs(body, opt))
-            out.append('%%(%s)]' % name)
+            out.append('%%(%s%s)]' % (name, (' ' + args) if opt.get('endfull') and args else ''))
     return ''.join(out)
 
 
@@ -266,6 +269,12 @@ def templates(ch, av):
         [B('if', 'c', S([T('y')])), E('x', 'url_quote'), T(ch), B('in', 's', S([T('i')])), E('x'), E('x', 'upper', 'spacify')],
         [E('x', 'url_quote'), B('if', 'c', S([E('x', 'lower'), T(ch)]), S([E('x')], 'else')), E('x', 'sql_quote')],
         [B('with', 'w mapping', S([T(ch)])), E('x', 'html_quote', 'newline_to_br'), B('try', '', S([T('t')]), S([T('f')], 'finally')), E('x', 'thousands_commas')],
+        [B('if', 'expr="n > 1"', S([T('G' + ch)]), S([T('L')], 'else')), B('unless', '"n > 0 and n < 3"', S([T(ch)])), B('in', 'expr="s[1:]"', S([L('var', 'sequence-item')]))],
+        [B('with', 'expr="w" mapping', S([B('if', '"n >= 2"', S([L('var', 'q'), T(ch)]))])), B('let', 'a="n > 1" b=x', S([L('var', 'a'), L('var', 'b')]))],
+        # variables that are NAMED like tags
+        [L('var', 'var'), T(ch), L('var', 'in'), L('var', 'if'), L('var', 'call'), L('var', 'else'), L('var', 'end'), L('var', 'elif'), L('var', 'try')],
+        [B('in', 'in', S([L('var', 'sequence-item')])), B('if', 'if', S([T('y' + ch)])), B('with', 'with mapping', S([L('var', 'q')])), L('call', 'call'), B('unless', 'unless', S([T('u')]))],
+        [B('let', 'var=var let=n', S([L('var', 'var'), T(ch), L('var', 'let')])), B('if', 'var', S([L('var', 'var')]), S([T('e')], 'else'))],
         # malformed: all three must reject
         [B('if', 'c', S([T(ch)]), S([T('a')], 'else'), S([T('b')], 'else'))],
         [L('var', 'x bogus=1'), T(ch)],
@@ -286,8 +295,11 @@ class Obj:
 
 def make_ns_factory(n, c, xval):
     def make_ns(log):
-        return dict(x=xval, n=n, c=c, s=['i0', 'i1', 'i2'], ms=[{'k': 2}, {'k': 1}], es=[], d=0, sk='k', w={'q': 'wq'}, o=Obj(),
-                    f=Logged(log, 'f', ''), g=Logged(log, 'g', ''))
+        ns = dict(x=xval, n=n, c=c, s=['i0', 'i1', 'i2'], ms=[{'k': 2}, {'k': 1}], es=[], d=0, sk='k', w={'q': 'wq'}, o=Obj(),
+                  f=Logged(log, 'f', ''), g=Logged(log, 'g', ''))
+        ns.update({'var': 'Vv', 'in': ['I1', 'I2'], 'if': n, 'call': Logged(log, 'call', ''), 'else': 'El', 'end': 'En', 'elif': 'Ei', 'try': 'Tr',
+                   'with': {'q': 'withq'}, 'unless': c, 'let': 'Le'})
+        return ns
     return make_ns
 
 
@@ -303,7 +315,8 @@ def make_tpl(k):
     def ob(kc: int, a1: int, n: int, c: bool, o1: int, o2: int) -> bool:
         ch = CH_POOL[pick(kc, NCH)]
         av = AV_ALPHA[pick(a1, NAV)]
-        opt = {'sp': [' ', '\n', '  ', ' \t'][pick(o1, NSP)], 'end': ['/', 'end'][pick(o2, 2)], 'endargs': pick(o2, 2) == 1}
+        oo = pick(o2, 3)
+        opt = {'sp': [' ', '\n', '  ', ' \t'][pick(o1, NSP)], 'end': ['/', 'end', '/'][oo], 'endargs': oo == 1, 'endfull': oo == 2}
         nn = pick(n, 3)
         cc = bool(c)
         with NoTracing():
@@ -381,7 +394,7 @@ def explain(obname, args):
 
 OBLIGATIONS = []
 for _k in range(NT):
-    OBLIGATIONS.append(Ob('tpl_%02d' % _k, make_tpl(_k), ['0 <= kc < %d' % NCH, '0 <= a1 < %d' % NAV, '0 <= n < 3', '0 <= o1 < %d' % NSP, '0 <= o2 < 2'],
+    OBLIGATIONS.append(Ob('tpl_%02d' % _k, make_tpl(_k), ['0 <= kc < %d' % NCH, '0 <= a1 < %d' % NAV, '0 <= n < 3', '0 <= o1 < %d' % NSP, '0 <= o2 < 3'],
                           timeout=tier(280, 1200), path_timeout=60,
                           data='-', selectors='abstract template #%d printed as <dtml->, <!--#--> (/tag or endtag) and %%(..): literal character from %d class representatives, attribute-value text from %r, %d blank variants, n, c' % (_k, NCH, AV_ALPHA[:NAV], NSP),
                           outside='attribute values outside the pool; EPFS format suffixes other than s', stubs='cook and render run untraced once everything is fixed on the path'))
